@@ -67,6 +67,11 @@ def finish(root, prop, tier, seed, pres, bres, t0, write_expected=False, rres=No
         for f in kf:
             if f.get("key") == key or f.get("obligation") == key:
                 return f
+        # a failure class seen on a MODIFIED description is the class on plain descriptions when that one is recorded
+        if key and ":description-" in key:
+            head, tail = key.split(":description-", 1)
+            rest = tail.split(")", 1)[1] if ")" in tail else ""
+            return is_known(head + rest)
         return None
 
     # ---------------- tier P
@@ -108,7 +113,7 @@ def finish(root, prop, tier, seed, pres, bres, t0, write_expected=False, rres=No
                            "model": t["refuted"][0].get("model", {}), "path": t["refuted"][0].get("path"),
                            "witness": t["refuted"][0].get("witness"),
                            "replay_status": [e["status"] for e in by_ob.get(cid, [])],
-                           "no_failing_input_found": True})
+                           "no_failing_input_found": not t["refuted"][0].get("native_confirmed")})
     vacuous_fns = set()
     for u in undecided:
         if "vacuity" in u["why"]:
